@@ -68,6 +68,9 @@ class Chunks(Harness):
                         out.append(dict(fmt=fmt, rows=rows[::-1], mode=mode, no_final_newline=True, crlf=True, header=[]))
         out.append(dict(fmt="bed3", rows=[[1, 1, 1], [1, 2, 3], [2, 1, 1]], mode="seek", no_final_newline=False, crlf=False, header=[], join_lazy=True))
         out.append(dict(fmt="bed3", rows=[[1, 1, 1], [3, 1, 1], [1, 1, 1], [1, 2, 2]], mode="prepend", no_final_newline=True, crlf=False, header=[], join_lazy=True))
+        for mode in ("seek", "prepend"):
+            out.append(dict(fmt="bed3", rows=[[1, 1, 1], [1, 2, 3], [2, 1, 1]], mode=mode, no_final_newline=False, crlf=False, header=[], then_read=True))
+            out.append(dict(fmt="fastq", records=[[1, 2], [2, 1], [1, 1]], mode=mode, no_final_newline=True, crlf=False, width=2, then_read=True))
         # the user-level reader (NpDataclassReader.read_chunks) on wrapped FASTA whose records have one or several sequence lines
         for recs in ([[1, 3], [1, 2], [1, 4]], [[1, 2], [1, 1]], [[1, 1]]):
             for mode in ("seek", "prepend"):
@@ -109,6 +112,13 @@ class Chunks(Harness):
             from bionumpy.io.npdataclassreader import NpDataclassReader
             parsed = list(itertools.islice(NpDataclassReader(reader, lazy=False).read_chunks(x["k"]), n + 3))
             res = dict(data=None, counts=[len(d) for d in parsed])
+        elif skel.get("then_read"):
+            # history: one chunk is read, then the REST of the file with read(): together they are the file
+            first = reader.read_chunk(x["k"])
+            rest = reader.read()
+            chunks = [c for c in (first, rest) if c is not None]
+            parsed = [c.get_data() for c in chunks]
+            res = dict(data=[ctx.lst(c.data.raw()) for c in chunks], counts=[len(d) for d in parsed])
         else:
             chunks = list(itertools.islice(reader.read_chunks(x["k"]), n + 3))    # a reader that stops making progress shows as extra chunks
             parsed = [c.get_data() for c in chunks]
